@@ -6,8 +6,13 @@
    sees, so that correspondence = trace inclusion (the label sequence recorded from the Go
    component must be accepted by [run]).
 
-   * [LStore d st vis unv res]: Store(duty d, set) returned [res]; the deadliner's verdict for d
-     was [st] (scripted in the harness, arbitrary in the theorems); [vis] are the entries of the
+   * [LAdd d st]: a Store call for duty d asked the deadliner (deadliner.Add(d)) and got verdict [st]
+     (scripted in the harness, arbitrary in the theorems).  In the code this happens under db.mu, at
+     the start of the critical section that ends with the matching [LStore]: between the two the
+     model admits only events that do not need the lock (the deadliner emitting a duty, readers
+     returning) -- no other Store, no registration, no PubKeyByAttestation.  The position of [LAdd]
+     in the trace is the instant of the verdict, the position of [LStore] the end of the write.
+   * [LStore d st vis unv res]: that Store(duty d, set) returned [res] (verdict [st] as in its LAdd); [vis] are the entries of the
      set in the order Go's map iteration visited them (observed: every store*Unsafe starts with
      unsignedData.Clone()), [unv] the entries never visited because an earlier one failed.
      Go returns at the first failing entry: entries before it stay stored (partial effects) and the
@@ -114,7 +119,8 @@ Inductive label :=
 | LCancel (q : N)
 | LExpire (d : duty)
 | LPubKey (slot comm vidx : N) (r : option N)
-| LQuiet.
+| LQuiet
+| LAdd (d : duty) (st : status).
 
 (* ---- the stored maps ---- *)
 Record db := mkdb {
@@ -280,7 +286,7 @@ Definition opt_eqb (a b : option N) : bool :=
 
 Definition nil_entries (l : list entry) : bool := match l with [] => true | _ => false end.
 
-Definition step_gen (pre_fix : bool) (s : state) (l : label) : option state :=
+Definition core_step (pre_fix : bool) (s : state) (l : label) : option state :=
   match l with
   | LStore (t, sl) st vis unv res =>
       match st with
@@ -324,11 +330,33 @@ Definition step_gen (pre_fix : bool) (s : state) (l : label) : option state :=
   | LPubKey slot comm vidx r =>
       if opt_eqb r (lookup_pk (slot, comm, vidx) (pks (st_db s))) then Some s else None
   | LQuiet => match outbox s with [] => Some s | _ => None end
+  | LAdd _ _ => Some s
+  end.
+
+(* The full state: the maps and queries, plus the verdict of the Store call that is inside its
+   critical section (between deadliner.Add and return), if any. *)
+Definition xstate := (state * option (duty * status))%type.
+Definition status_eqb (a b : status) : bool :=
+  match a, b with Expired, Expired | Scheduled, Scheduled | Exempt, Exempt => true | _, _ => false end.
+Definition add_eqb (a : option (duty * status)) (d : duty) (st : status) : bool :=
+  match a with Some (d', st') => duty_eqb d' d && status_eqb st' st | None => false end.
+Definition is_none {A} (a : option A) : bool := match a with None => true | _ => false end.
+Definition with_add (a : option (duty * status)) (r : option state) : option xstate :=
+  match r with Some s' => Some (s', a) | None => None end.
+
+Definition step_gen (pre_fix : bool) (x : xstate) (l : label) : option xstate :=
+  let (s, a) := x in
+  match l with
+  | LAdd d st => if is_none a then Some (s, Some (d, st)) else None
+  | LStore d st _ _ _ => if add_eqb a d st then with_add None (core_step pre_fix s l) else None
+  | LAwaitReg _ _ | LPubKey _ _ _ _ => if is_none a then with_add None (core_step pre_fix s l) else None   (* need db.mu *)
+  | _ => with_add a (core_step pre_fix s l)
   end.
 
 Definition step := step_gen false.
+Definition xinit : xstate := (init, None).
 
-Fixpoint run_gen (pre_fix : bool) (s : state) (ls : list label) : option state :=
+Fixpoint run_gen (pre_fix : bool) (s : xstate) (ls : list label) : option xstate :=
   match ls with
   | [] => Some s
   | l :: r => match step_gen pre_fix s l with Some s' => run_gen pre_fix s' r | None => None end
@@ -336,7 +364,7 @@ Fixpoint run_gen (pre_fix : bool) (s : state) (ls : list label) : option state :
 Definition run := run_gen false.
 
 (* Index of the first label the model refuses (None = whole trace accepted). *)
-Fixpoint first_reject (pre_fix : bool) (s : state) (ls : list label) (i : nat) : option nat :=
+Fixpoint first_reject (pre_fix : bool) (s : xstate) (ls : list label) (i : nat) : option nat :=
   match ls with
   | [] => None
   | l :: r => match step_gen pre_fix s l with Some s' => first_reject pre_fix s' r (S i) | None => Some i end
@@ -346,7 +374,9 @@ Fixpoint first_reject (pre_fix : bool) (s : state) (ls : list label) (i : nat) :
    into a concrete finding; no theorem depends on it):
    1 = the model expected a clash error that the implementation did not return,
    2 = quiescence although the model holds a response for a reader (a satisfiable query is blocked),
-   3 = a reader got other content than the model's stored value for its key, 0 = anything else. *)
+   3 = a reader got other content than the model's stored value for its key,
+   4 = an operation that needs the lock was observed between a Store's deadline verdict and the end
+       of that Store (verdict and write are not atomic), 0 = anything else. *)
 Definition is_clash (e : err) : bool :=
   match e with EClashPK | EClashAtt | EClashSrc | EClashTgt | EClashPro | EClashAgg | EClashCon => true | _ => false end.
 Fixpoint first_err (t : dtype) (es : list entry) (d : db) : option err :=
@@ -354,20 +384,23 @@ Fixpoint first_err (t : dtype) (es : list entry) (d : db) : option err :=
   | [] => None
   | e :: r => match store_entry false t e d with (d', None) => first_err t r d' | (_, Some er) => Some er end
   end.
-Definition diagnose (s : state) (l : label) : N :=
+Definition diagnose (x : xstate) (l : label) : N :=
+  let (s, a) := x in
   match l with
-  | LStore (t, _) Scheduled vis unv res =>
-      match kind_of_dt t, first_err t vis (st_db s) with
-      | Some _, Some er =>
+  | LAdd _ _ | LAwaitReg _ _ | LPubKey _ _ _ _ => if is_none a then 0 else 4
+  | LStore (t, sl) st vis unv res =>
+      if negb (add_eqb a (t, sl) st) then 4 else
+      match st, kind_of_dt t, first_err t vis (st_db s) with
+      | Scheduled, Some _, Some er =>
           if is_clash er && match res with Some e => negb (is_clash e) | None => true end then 1 else 0
-      | _, _ => 0
+      | _, _, _ => 0
       end
   | LQuiet => match outbox s with [] => 0 | _ => 2 end
   | LAnswer q k c =>
       if existsb (fun x => let '(q', k', c') := x in N.eqb q q' && key_eqb k k' && negb (N.eqb c c')) (outbox s) then 3 else 0
   | _ => 0
   end.
-Fixpoint first_reject_diag (s : state) (ls : list label) (i : nat) : option (nat * N) :=
+Fixpoint first_reject_diag (s : xstate) (ls : list label) (i : nat) : option (nat * N) :=
   match ls with
   | [] => None
   | l :: r => match step_gen false s l with Some s' => first_reject_diag s' r (S i) | None => Some (i, diagnose s l) end
@@ -433,7 +466,13 @@ Definition ans_agree (k : key) (c : N) (l : list (key * N)) : bool :=
 
 Definition store_disc (g : ghost) (d : duty) (st : status) (vis : list entry) : bool :=
   match st with
-  | Scheduled => negb (in_duties d (g_dead g)) && forallb (entry_slots_ok (snd d)) vis
+  | Scheduled => forallb (entry_slots_ok (snd d)) vis
+  | _ => true
+  end.
+(* the verdict: a duty the deadliner has already emitted is not Scheduled (C16) *)
+Definition add_disc (g : ghost) (d : duty) (st : status) : bool :=
+  match st with
+  | Scheduled => negb (in_duties d (g_dead g))
   | _ => true
   end.
 
@@ -454,6 +493,18 @@ Definition check (g : ghost) (l : label) : bool :=
   | LPubKey slot comm vidx (Some p) => pk_in (slot, comm, vidx) p (g_offpk g)
   | LQuiet => match g_must g with [] => true | _ => false end      (* nobody who could be served is still blocked *)
   | _ => true
+  end.
+
+(* ... and the deadline verdict and the write of a Store are one atomic step: between LAdd and its
+   LStore no other operation that needs the lock is observed ([a] = verdict of the Store in progress) *)
+Definition xghost := (ghost * option (duty * status))%type.
+Definition xcheck (x : xghost) (l : label) : bool :=
+  let (g, a) := x in
+  match l with
+  | LAdd _ _ => is_none a
+  | LStore d st _ _ _ => add_eqb a d st && check g l
+  | LAwaitReg _ _ | LPubKey _ _ _ _ => is_none a && check g l
+  | _ => check g l
   end.
 
 Definition drop_kind (kd : kind) (l : list kind) : list kind := filter (fun x => negb (kind_eqb x kd)) l.
@@ -495,17 +546,33 @@ Definition gstep (g : ghost) (l : label) : ghost :=
       mkg (g_pend g) (g_off g) (g_offpk g) (g_ans g) (d :: g_dead g) (g_disc g) (g_must g) (g_prov g) true (g_dirty g)
   | LPubKey _ _ _ _ => g
   | LQuiet => g
+  | LAdd d st =>
+      mkg (g_pend g) (g_off g) (g_offpk g) (g_ans g) (g_dead g) (g_disc g && add_disc g d st) (g_must g) (g_prov g)
+          (g_expn g) (g_dirty g)
   end.
 
-Fixpoint monitor_from (g : ghost) (ls : list label) : bool :=
-  match ls with [] => true | l :: r => check g l && monitor_from (gstep g l) r end.
-Definition monitor := monitor_from ginit.
+Definition xgstep (x : xghost) (l : label) : xghost :=
+  let (g, a) := x in
+  (gstep g l,
+   match l with
+   | LAdd d st => Some (d, st)
+   | LStore _ _ _ _ _ | LAwaitReg _ _ | LPubKey _ _ _ _ => None
+   | _ => a
+   end).
+Definition xginit : xghost := (ginit, None).
 
-Fixpoint first_violation (g : ghost) (ls : list label) (i : nat) : option nat :=
+Fixpoint monitor_from (x : xghost) (ls : list label) : bool :=
+  match ls with [] => true | l :: r => xcheck x l && monitor_from (xgstep x l) r end.
+Definition monitor := monitor_from xginit.
+
+Fixpoint first_violation (x : xghost) (ls : list label) (i : nat) : option nat :=
   match ls with
   | [] => None
-  | l :: r => if check g l then first_violation (gstep g l) r (S i) else Some i
+  | l :: r => if xcheck x l then first_violation (xgstep x l) r (S i) else Some i
   end.
+
+Fixpoint xghost_after (x : xghost) (ls : list label) : xghost :=
+  match ls with [] => x | l :: r => xghost_after (xgstep x l) r end.
 
 Fixpoint ghost_after (g : ghost) (ls : list label) : ghost :=
   match ls with [] => g | l :: r => ghost_after (gstep g l) r end.
